@@ -1475,6 +1475,12 @@ impl Core {
 		self.write_stall.signal_shutdown();
 		log::debug!("Write stall shutdown signal sent");
 
+		// Commits that passed the shutdown check before it was set are still under
+		// way: let them finish before anything is flushed or closed. Going ahead
+		// released the commit-log segment such a commit then wrote to - it returned
+		// Ok and its record was deleted a moment later.
+		self.commit_pipeline.drain().await;
+
 		// Step 3: Wait for and stop all background tasks
 		let task_manager = self.task_manager.lock().unwrap().take();
 		if let Some(task_manager) = task_manager {
